@@ -83,6 +83,7 @@ from jax2onnx.converter.conversion_api import (
     ShapeDimSpec,
     ShapeTupleSpec,
     _to_ir_dtype_from_np,
+    _x64_scope,
     to_onnx as to_onnx_impl,
 )
 from jax2onnx.converter.ir_postprocess import postprocess_ir_model
@@ -103,14 +104,8 @@ OnnxFunctionDecorator = Callable[[OnnxFunctionTarget], OnnxFunctionTarget]
 
 @contextmanager
 def _temporary_x64(enabled: bool) -> Iterator[None]:
-    prev = jax.config.jax_enable_x64
-    try:
-        if enabled != prev:
-            jax.config.update("jax_enable_x64", enabled)
+    with _x64_scope(enabled):
         yield
-    finally:
-        if jax.config.jax_enable_x64 != prev:
-            jax.config.update("jax_enable_x64", prev)
 
 
 def _normalize_return_mode(value: str) -> ReturnMode:
